@@ -155,7 +155,9 @@ CLAIMS = {
                 "overrides no hook), 08 09 63 99 (wrappers), 88 26 25 16 23 91 17 21 61 24 68 (one extra rule or digit selection each); "
                 "method 76: C07_m76_partial (equivalence whenever the weighted sum does not leave remainder 10) and C07_m76_refuted "
                 "(for remainder 10 it is false of the code as it stands: witness 0000005000 - the open known finding). "
-                "C07_national / C07_unlisted / C07_unimplemented lift this through "
+                "C07_iban (the property as stated: a cleaned German IBAN text whose bank is listed with a proved method validates "
+                "with validate_bban=True iff it is ISO 13616-valid and the Bundesbank method accepts the account number). "
+                "C07_national / C07_unlisted / C07_unimplemented lift the method theorems through "
                 "BBAN.validate_national_checksum for any bank index: a conforming German BBAN whose bank names a proven method is "
                 "accepted iff the Bundesbank method accepts its account number and otherwise raises InvalidBBANChecksum; unlisted "
                 "banks and unimplemented methods are accepted. Also "
